@@ -6,6 +6,8 @@
     ovf <val> <ty>       -> same as `dec (marshal val) ty`       (width overflow probes)
     raw <hex>            -> `ok <item> <rest-hex>` | `err`       (Base/Rlp.decodeItem, untyped)
     tobj <hex>           -> `ok`  (TypedObj decoding: oracle only on the Go side)
+    rep <tmpl> <byte> <n> -> `<len(enc)> <first 8 bytes> ok|err`: round trip of a value holding n copies
+                            of <byte> as []byte/string (templates `repCase`), top-level maxSB = len(input)
 
   types (prefix):  b | u8 u16 u32 u64 | i8 i16 i32 i64 | s | B | A<n> | Z | L t | R<n> t | P t
                    | S<n> t1..tn | M k v
@@ -122,6 +124,25 @@ def decOut (ty : Ty) (b : Bytes) : String :=
   | some (v, rest) => s!"ok {render v} {Hex.encodeWire rest}"
   | none => "err"
 
+/-- templates of the `rep` op: a long payload (`len` copies of one byte) as []byte / string at top
+    level and nested in struct, pointer, slice -/
+def repCase (t : Nat) (payload : Bytes) : Option (Ty × Val) :=
+  match t with
+  | 0 => some (.bytes, .bytes payload)
+  | 1 => some (.str, .str payload)
+  | 2 => some (.struct [.uint 8, .bytes], .list [.uint 7, .bytes payload])
+  | 3 => some (.ptr (.struct [.str, .int 16]), .ptr (.list [.str payload, .int (-2)]))
+  | 4 => some (.slice .bytes, .list [.bytes payload, .bytes [1]])
+  | 5 => some (.struct [.ptr .str, .slice (.uint 16)], .list [.ptr (.str payload), .list [.uint 1, .uint 300]])
+  | _ => none
+
+def repOut (ty : Ty) (v : Val) : String :=
+  let e := marshal v
+  let res := match unmarshal ty e with
+    | some (v', []) => if marshal v' == e then "ok" else "err"
+    | _ => "err"
+  s!"{e.length} {Hex.encodeWire (e.take 8)} {res}"
+
 def step (s : Unit) (toks : List String) : Unit × String :=
   let out := match toks with
   | ["reset"] => "ok"
@@ -151,6 +172,13 @@ def step (s : Unit) (toks : List String) : Unit × String :=
       | none => "err"
     | none => "bad-op"
   | ["tobj", _] => "ok"
+  | ["rep", t, bh, n] =>
+    match t.toNat?, Hex.decodeWire bh, n.toNat? with
+    | some t, some [x], some n =>
+      match repCase t (List.replicate n x) with
+      | some (ty, v) => repOut ty v
+      | none => "bad-op"
+    | _, _, _ => "bad-op"
   | _ => "bad-op"
   (s, out)
 end Goloop.Driver.C23
